@@ -64,24 +64,53 @@ def panosApplyBody : Sess :=
   .ite .err "err != nil" (.ret .err ["_"]) .skip ;;
   .ret .nil ["nil"]
 
-/-- LoadDevice with a single entry in `name_list` (fail-over to a second device is outside the model). -/
+/-- `httpdevice.TryReachableHTTPLogin` with a single entry in `name_list` (fail-over to a second
+device is outside the model): one round of the loop; a failed login is a warning and the loop is over. -/
+def tryReachableBody (login : Sess) : Sess :=
+  .ite .never "err != nil" (.ret .keep ["err"]) .skip ;;
+  .scope "loop" (
+    op "GetUserPass" ["_"] ;;
+    .ite .never "err != nil" (.ret .keep ["err"]) .skip ;;
+    .call "login" ["_", "_", "_", "_"] login ;;
+    .ite .err "err != nil" (.warn ["%v", "err"] ;; .when .never .cont) .skip ;;
+    .when (.not .err) (.ret .nil ["nil"])) ;;
+  .ret .err ["_"]
+def TryReachableHTTPLogin (login : Sess) : Sess := .call "TryReachableHTTPLogin" ["_", "_"] (tryReachableBody login)
+
+def panosGetAPIKeyBody : Sess :=
+  .ite .never "err != nil" (.ret .keep ["", "err"]) .skip ;;
+  panosHttpGet .login (.lit "keygen") ;;
+  .ite .err "err != nil" (.ret .err ["", "_"]) .skip ;;
+  .call "parseAPIKey" ["_"] (
+    panosParseResponse ;;
+    .ite .err "" (.ret .keep []) .skip ;;
+    .ite (.not (.flag .keyOk)) "" (.ret .err []) (.ret .nil [])) ;;
+  .ret .keep ["_"]
+
+/-- `checkHA`: true (no error value) iff HA is off or this device is the active one -/
+def panosCheckHABody : Sess :=
+  panosHttpPrefixGetLog .login (.lit "show ha") ;;
+  .ite .err "err != nil" (.ret .err ["false"]) .skip ;;
+  panosParseResponse ;;
+  .ite .err "err != nil" (.ret .err ["false"]) .skip ;;
+  op "Unmarshal" ["_", "_"] ;;
+  .ite .never "err != nil" (.ret .err ["false"]) .skip ;;
+  .ite (.flag .haActive) "ha.Enabled != \"yes\"" (.ret .nil ["true"]) .skip ;;
+  .ite .never "ha.Mode == \"Active-Passive\"" (.ret .none ["_"])
+    (.ite .never "ha.Mode == \"Active-Active\"" (.ret .none ["_"]) .skip) ;;
+  .ret .err ["false"]
+
+/-- the function literal handed to TryReachableHTTPLogin -/
+def panosLoginFunc : Sess :=
+  .call "getAPIKey" ["_", "_", "_", "_"] panosGetAPIKeyBody ;;
+  .ite .err "err != nil" (.ret .keep ["err"]) .skip ;;
+  .call "checkHA" ["_"] panosCheckHABody ;;
+  .ite .err "!s.checkHA(logLogin)" (.ret .err ["_"]) .skip ;;
+  .ret .nil ["nil"]
+
 def panosLoadDevice : Sess :=
-  .call "TryReachableHTTPLogin" ["_", "_"] (
-    .call "getAPIKey" ["_", "_", "_", "_"] (
-      panosHttpGet .login (.lit "keygen") ;;
-      .ite .err "err != nil" (.ret .err ["", "_"]) .skip ;;
-      panosParseResponse ;;
-      .ite .err "" (.ret .keep []) .skip ;;
-      .ite (.not (.flag .keyOk)) "" (.ret .err []) (.ret .nil [])) ;;
-    .ite .err "err != nil" (.mark .logWarn ;; .ret .err ["_"]) .skip ;;
-    .call "checkHA" ["_"] (
-      panosHttpPrefixGetLog .login (.lit "show ha") ;;
-      .ite .err "err != nil" (.ret .err ["false"]) .skip ;;
-      panosParseResponse ;;
-      .ite .err "err != nil" (.ret .err ["false"]) .skip ;;
-      .ite (.not (.flag .haActive)) "" (.ret .err ["false"]) (.ret .nil ["true"])) ;;
-    .ite .err "!s.checkHA(logLogin)" (.mark .logWarn ;; .ret .err ["_"]) .skip ;;
-    .ret .nil ["nil"]) ;;
+  TryReachableHTTPLogin panosLoginFunc ;;
+  .when .never (.scope "func" panosLoginFunc) ;;   -- where the function literal stands in the source
   .ite .err "err != nil" (.ret .keep ["nil", "err"]) .skip ;;
   (panosHttpPrefixGetLog .read (.lit "get config") ;;
    .ite .err "err != nil" (.ret .keep ["nil", "err"]) .skip ;;
@@ -106,8 +135,8 @@ def nsxSendRequestBody (ρ : Role) (t : Txt) : Sess :=
        (op "ReadAll" ["_"] ;; .ret .err ["nil", "_"]) .skip ;;
      op "ReadAll" ["_"] ;;
      .ret .keep ["_"])
-def nsxSendRequest (ρ : Role) (t : Txt) : Sess :=
-  .call "sendRequest" ["_", "_", "_"] (nsxSendRequestBody ρ t)
+def nsxSendRequest (ρ : Role) (t : Txt) (lits : List String := ["_", "_", "_"]) : Sess :=
+  .call "sendRequest" lits (nsxSendRequestBody ρ t)
 
 def nsxApplyBody : Sess :=
   .forEach (
@@ -118,31 +147,48 @@ def nsxApplyBody : Sess :=
 def jsonUnmarshal : Sess :=
   .call "Unmarshal" ["_", "_"] (.ite .parseFails "" (.ret .err []) (.ret .nil []))
 
+/-- the function literal handed to TryReachableHTTPLogin: create a session -/
+def nsxLoginFunc : Sess :=
+  .ite .never "err != nil" (.ret .keep ["err"]) .skip ;;
+  (.roundTrip .login (.lit "session create") false ;;
+   .ite .err "err != nil" (.ret .keep ["err"]) .skip ;;
+   .ite .not200 "resp.StatusCode != http.StatusOK" (.ret .err ["_"]) .skip) ;;
+  op "Get" ["x-xsrf-token"] ;;
+  .ret .nil ["nil"]
+
+/-- `getRawJSON` for one page (`cursor == ""` after the first request) -/
+def nsxGetRawJSONBody (t : Txt) : Sess :=
+  .scope "loop" (
+    (nsxSendRequest .read t ["GET", "_", "nil"] ;;
+     .ite .err "err != nil" (.ret .keep ["nil", "err"]) .skip ;;
+     jsonUnmarshal ;;
+     .ite .err "err != nil" (.ret .err ["nil", "_"]) .skip) ;;
+    .scope "loop" (.when .never (op "Unmarshal" ["_", "_"] ;; .ite .never "err != nil" (.ret .keep ["nil", "err"]) .skip)) ;;
+    .ite (.not .never) "cursor == \"\"" (op "break") .skip) ;;
+  .ret .nil ["_", "nil"]
+def nsxGetRawJSON (t : Txt) : Sess := .call "getRawJSON" ["_"] (nsxGetRawJSONBody t)
+
 /-- LoadDevice for a device without Netspoc gateway policies and with one page of services and
 groups (what the scenarios use). -/
 def nsxLoadDevice : Sess :=
-  .call "TryReachableHTTPLogin" ["_", "_"] (
-    (.roundTrip .login (.lit "session create") false ;;
-     .ite .err "err != nil" (.mark .logWarn ;; .ret .err ["err"]) .skip ;;
-     .ite .not200 "resp.StatusCode != http.StatusOK" (.mark .logWarn ;; .ret .err ["_"]) .skip) ;;
-    .ret .nil ["nil"]) ;;
+  TryReachableHTTPLogin nsxLoginFunc ;;
+  .when .never (.scope "func" nsxLoginFunc) ;;
   .ite .err "err != nil" (.ret .keep ["nil", "err"]) .skip ;;
-  (nsxSendRequest .read (.lit "gateway-policies") ;;
+  (nsxSendRequest .read (.lit "gateway-policies") ["GET", "_", "nil"] ;;
    .ite .err "err != nil" (.ret .keep ["nil", "err"]) .skip ;;
    jsonUnmarshal ;;
    .ite .err "err != nil" (.ret .err ["nil", "_"]) .skip) ;;
-  .call "getRawJSON" ["_"] (
-    nsxSendRequest .read (.lit "services") ;;
-    .ite .err "err != nil" (.ret .keep ["nil", "err"]) .skip ;;
-    jsonUnmarshal ;;
-    .ite .err "err != nil" (.ret .err ["nil", "_"]) (.ret .nil ["_", "nil"])) ;;
+  .scope "loop" (.when .never (
+    .ite .never "!strings.HasPrefix(result.Id, \"Netspoc\")" .cont .skip ;;
+    nsxSendRequest .read (.lit "policy") ["GET", "_", "nil"] ;;
+    .ite .err "err != nil" (.ret .keep ["nil", "err"]) .skip)) ;;
+  nsxGetRawJSON (.lit "services") ;;
   .ite .err "err != nil" (.ret .keep ["nil", "err"]) .skip ;;
-  .call "getRawJSON" ["_"] (
-    nsxSendRequest .read (.lit "groups") ;;
-    .ite .err "err != nil" (.ret .keep ["nil", "err"]) .skip ;;
-    jsonUnmarshal ;;
-    .ite .err "err != nil" (.ret .err ["nil", "_"]) (.ret .nil ["_", "nil"])) ;;
+  nsxGetRawJSON (.lit "groups") ;;
   .ite .err "err != nil" (.ret .keep ["nil", "err"]) .skip ;;
+  .ite .never "err != nil" (.ret .keep ["nil", "err"]) .skip ;;
+  op "ParseConfig" ["_", "<device>"] ;;
+  .ite .never "err != nil" (.ret .err ["nil", "_"]) .skip ;;
   .assumeBanner ;; .setPlan ;;
   .ret .nil ["_", "nil"]
 
